@@ -25,6 +25,10 @@ NONE == [k |-> "none"]
 AtPos(p, g) == [k |-> "at", pos |-> p, gen |-> g]
 InStm(s, i) == [k |-> "stm", stm |-> s, idx |-> i]
 HDR == 1      \* size of the "N G obj" ... "endobj" framing
+\* most objects in one object stream (reader.go maxObjStmObjects); the design
+\* configurations replace it by SmallMembers so that the splitting is explored
+MaxMembers == 10000
+SmallMembers == 2
 SizeOf(v) == 1
 Max(a, b) == IF a > b THEN a ELSE b
 
@@ -151,28 +155,40 @@ CloseStream ==
          /\ mode' = IF st1.err = "" THEN "idle" ELSE "failed"
          /\ cur' = NONE /\ deferred' = <<>> /\ UNCHANGED trailer
 
-\* WriteCompressed: N Puts without object streams; otherwise a container is
-\* allocated, every member gets a compressed entry, the container is a stream
+\* WriteCompressed: N Puts without object streams; otherwise the list is cut
+\* into pieces of at most MaxMembers objects (the Reader accepts no more in one
+\* object stream) and every piece becomes one object stream: a container is
+\* allocated, every member gets a compressed entry, the container is a stream.
+\* An empty list writes nothing.
+Consecutive(ns) == \A i \in 1..Len(ns) : ns[i] = ns[1] + i - 1
+WCOne(st, ns, vs) ==      \* writeObjStm
+  IF st.err # "" THEN st ELSE
+  LET s == st.nextRef
+      nset == {ns[i] : i \in 1..Len(ns)}
+      dup == Cardinality(nset) # Len(ns) \/ s \in nset \/ \E n \in nset : st.xref[n] # NONE
+      cons == Consecutive(ns)      \* (only a faster way to the same index and maximum)
+      IdxOf(n) == IF cons THEN n - ns[1] + 1 ELSE CHOOSE i \in 1..Len(ns) : ns[i] = n
+      top == IF cons THEN ns[Len(ns)] ELSE CHOOSE m \in nset : \A k \in nset : k <= m
+  IN IF dup THEN [st EXCEPT !.err = "duplicate", !.nextRef = s + 1]
+     ELSE [st EXCEPT !.xref = [n \in Num |-> IF n = s THEN AtPos(st.pos, 0)
+                                             ELSE IF n \in nset THEN InStm(s, IdxOf(n) - 1) ELSE st.xref[n]],
+                     !.nextRef = Max(s + 1, top + 1),
+                     !.emitted = Append(st.emitted, [pos |-> st.pos, num |-> s, gen |-> 0, kind |-> "objstm", val |-> "objstm",
+                                                     members |-> [i \in 1..Len(ns) |-> <<ns[i], vs[i]>>], len |-> Len(ns), lenRef |-> 0]),
+                     !.pos = st.pos + HDR + Len(ns) + HDR,
+                     !.written = st.written \cup {<<ns[i], 0, vs[i]>> : i \in 1..Len(ns)}]
+RECURSIVE WCAll(_, _, _)
+WCAll(st, ns, vs) ==
+  IF Len(ns) <= MaxMembers THEN WCOne(st, ns, vs)
+  ELSE WCAll(WCOne(st, SubSeq(ns, 1, MaxMembers), SubSeq(vs, 1, MaxMembers)),
+             SubSeq(ns, MaxMembers + 1, Len(ns)), SubSeq(vs, MaxMembers + 1, Len(vs)))
 WriteCompressed(ns, vs) ==
   /\ mode = "idle" /\ Step
-  /\ IF ~OBJSTM
-     THEN LET st1 == PutAll(St, [i \in 1..Len(ns) |-> <<ns[i], 0, vs[i], "plain">>])
+  /\ IF Len(ns) = 0
+     THEN lastErr' = "" /\ UNCHANGED <<mode, xref, nextRef, pos, emitted, written>>
+     ELSE LET st1 == IF ~OBJSTM THEN PutAll(St, [i \in 1..Len(ns) |-> <<ns[i], 0, vs[i], "plain">>])
+                     ELSE WCAll(St, ns, vs)
           IN /\ Commit(st1) /\ mode' = IF st1.err = "" THEN "idle" ELSE "failed"
-     ELSE LET s == nextRef
-              dup == \E i \in 1..Len(ns) : xref[ns[i]] # NONE \/ ns[i] = s
-                        \/ \E j \in 1..Len(ns) : i # j /\ ns[i] = ns[j]
-          IN IF dup
-             THEN /\ lastErr' = "duplicate" /\ mode' = "failed" /\ nextRef' = nextRef + 1
-                  /\ UNCHANGED <<xref, pos, emitted, written>>
-             ELSE /\ xref' = [n \in Num |-> IF n = s THEN AtPos(pos, 0)
-                                            ELSE IF \E i \in 1..Len(ns) : ns[i] = n
-                                                 THEN InStm(s, (CHOOSE i \in 1..Len(ns) : ns[i] = n) - 1) ELSE xref[n]]
-                  /\ nextRef' = Max(s + 1, 1 + Max(nextRef, CHOOSE m \in {ns[i] : i \in 1..Len(ns)} : \A i \in 1..Len(ns) : ns[i] <= m))
-                  /\ emitted' = Append(emitted, [pos |-> pos, num |-> s, gen |-> 0, kind |-> "objstm", val |-> "objstm",
-                                                 members |-> [i \in 1..Len(ns) |-> <<ns[i], vs[i]>>], len |-> Len(ns), lenRef |-> 0])
-                  /\ pos' = pos + HDR + Len(ns) + HDR
-                  /\ written' = written \cup {<<ns[i], 0, vs[i]>> : i \in 1..Len(ns)}
-                  /\ lastErr' = "" /\ mode' = "idle"
   /\ UNCHANGED <<deferred, cur, trailer>>
 \* argument errors of WriteCompressed (checkCompressed) change nothing
 WriteCompressedBad(why) ==
@@ -197,8 +213,10 @@ CloseWhileOpen == /\ mode = "stream" /\ Step /\ lastErr' = "inStream"
                   /\ UNCHANGED <<mode, xref, nextRef, deferred, pos, emitted, cur, written, trailer>>
 
 ProgNums == 1..MaxNum
+WC3(a, b, c, v) == a # b /\ a # c /\ b # c /\ WriteCompressed(<<a, b, c>>, <<v, v, v>>)
 WC2(a, b, v) == a # b /\ WriteCompressed(<<a, b>>, <<v, v>>)
 WC1(a, v) == WriteCompressed(<<a>>, <<v>>)
+WC0 == WriteCompressed(<<>>, <<>>)
 Next == \/ Alloc \/ AllocN(2)
         \/ \E n \in ProgNums, g \in {0, 1}, v \in Vals : Put(n, g, v)
         \/ \E n \in ProgNums, g \in {0, 1}, v \in Vals : PutStm(n, g, v)
@@ -208,6 +226,8 @@ Next == \/ Alloc \/ AllocN(2)
         \/ CloseStream
         \/ \E a, b \in ProgNums, v \in Vals : WC2(a, b, v)
         \/ \E a \in ProgNums, v \in Vals : WC1(a, v)
+        \/ \E a, b, c \in ProgNums, v \in Vals : WC3(a, b, c, v)
+        \/ WC0
         \/ \E why \in {"streamMember", "refMember", "genMember"} : WriteCompressedBad(why)
         \/ Close \/ CloseWhileOpen
 Spec == Init /\ [][Next]_vars
